@@ -500,6 +500,13 @@ def oracle(case):
         # (on the string as given and, except for the spelling of escapes, which lower-casing does
         # not commute with, on the lower-cased string fingerprint_url starts from)
         try:
+            if T[1] in ESCAPE_T:
+                # reading: infer_redirection reads its keys off the raw string (C15); the spelling of
+                # escapes is varied on URLs that carry no redirect
+                from ural import infer_redirection
+
+                if any(infer_redirection(x) != x for x in (u, v, u.lower(), v.lower())):
+                    return None
             if normalize_url(u, platform_aware=pa) != normalize_url(v, platform_aware=pa):
                 return None
             if T[1] not in ESCAPE_T and normalize_url(u.lower(), platform_aware=pa) != normalize_url(v.lower(), platform_aware=pa):
